@@ -123,7 +123,11 @@ fn c14_cell(case: &Value, stats: &mut Stats) -> RunResult<()> {
     } else {
         ALL_FORMATS[(ALL_FORMATS.iter().position(|f| *f == fmt).unwrap() + 1 + us(case, "other") % 4) % 5].to_string()
     };
-    let ver2 = if ver_same { 5 } else { 6 + us(case, "other") as u32 % 3 };
+    // a different version is an upgrade or a downgrade: both are mismatches
+    let ver2 = if ver_same { 5 } else { [6u32, 7, 8, 4, 3, 2][us(case, "other") % 6] };
+    if ver2 < 5 {
+        stats.bump("probe.requested_version_lower_than_stored");
+    }
     let mut b = make::<u64>(&fmt2, "x");
     let res = catch(|| b.open(&db, e_reopen, ver2, 0));
     let res = match res {
